@@ -11,7 +11,7 @@ use std::{
     future::Future,
     pin::pin,
     sync::{
-        Arc,
+        Arc, Mutex,
         atomic::{AtomicUsize, Ordering},
     },
     task::{Context, Poll, Wake, Waker},
@@ -22,13 +22,32 @@ use qconnection::path::{AntiAmplifier, Constraints};
 use serde_json::{Value, json};
 use util::{Out, guarded, quiet_panics, read_lines};
 
-struct CountWaker(AtomicUsize);
+/// The burst task as seen from its waker.  Besides counting, it performs the woken task's first step right inside
+/// `wake` — asking for the balance — which reproduces deterministically the interleaving "the woken task (another worker
+/// thread) runs before the waking thread executes its next statement".  What it saw is recorded with the call that woke it.
+struct CountWaker {
+    count: AtomicUsize,
+    aa: Arc<AntiAmplifier>,
+    seen: Mutex<Vec<Value>>,
+}
 impl Wake for CountWaker {
     fn wake(self: Arc<Self>) {
-        self.0.fetch_add(1, Ordering::SeqCst);
+        self.wake_by_ref();
     }
     fn wake_by_ref(self: &Arc<Self>) {
-        self.0.fetch_add(1, Ordering::SeqCst);
+        self.count.fetch_add(1, Ordering::SeqCst);
+        let (kind, v) = classify(&self.aa, self.aa.balance());
+        self.seen.lock().unwrap().push(json!({"r": kind, "v": v}));
+    }
+}
+
+fn classify(aa: &AntiAmplifier, r: Result<Option<usize>, Signals>) -> (&'static str, i64) {
+    match r {
+        Ok(Some(usize::MAX)) if aa.verif_state().1 == 1 => ("max", 0i64),
+        Ok(Some(c)) => ("credit", c as i64),
+        Ok(None) => ("none", 0),
+        Err(s) if s == Signals::CREDIT => ("wait", 0),
+        Err(_) => ("wait-for-other-signal", 0),
     }
 }
 
@@ -48,7 +67,7 @@ fn clip(x: usize) -> i64 {
 
 struct World {
     tx_waker: ArcSendWaker,
-    aa: AntiAmplifier,
+    aa: Arc<AntiAmplifier>,
     count: Arc<CountWaker>,
     waker: Waker,
     /// what the burst task got from its last balance() (what it hands to Constraints::new)
@@ -58,9 +77,10 @@ struct World {
 impl World {
     fn new() -> Self {
         let tx_waker = ArcSendWaker::new();
-        let count = Arc::new(CountWaker(AtomicUsize::new(0)));
+        let aa = Arc::new(AntiAmplifier::new(tx_waker.clone()));
+        let count = Arc::new(CountWaker { count: AtomicUsize::new(0), aa: aa.clone(), seen: Mutex::new(vec![]) });
         World {
-            aa: AntiAmplifier::new(tx_waker.clone()),
+            aa,
             tx_waker,
             waker: Waker::from(count.clone()),
             count,
@@ -73,7 +93,8 @@ impl World {
         let o = ev.as_object_mut().unwrap();
         o.insert("credit".into(), json!(credit as i64));
         o.insert("state".into(), json!(state));
-        o.insert("wakes".into(), json!(self.count.0.load(Ordering::SeqCst) - wakes_before));
+        o.insert("wakes".into(), json!(self.count.count.load(Ordering::SeqCst) - wakes_before));
+        o.insert("woke_saw".into(), Value::Array(std::mem::take(&mut *self.count.seen.lock().unwrap())));
         ev
     }
 
@@ -81,7 +102,7 @@ impl World {
         let a = op.as_array().unwrap();
         let name = a[0].as_str().unwrap();
         let arg = |i: usize| a[i].as_u64().unwrap();
-        let w0 = self.count.0.load(Ordering::SeqCst);
+        let w0 = self.count.count.load(Ordering::SeqCst);
         match name {
             "rcvd" => {
                 let n = arg(1) as usize;
@@ -90,13 +111,7 @@ impl World {
             }
             "balance" => {
                 let r = self.aa.balance();
-                let (kind, v) = match r {
-                    Ok(Some(usize::MAX)) if self.aa.verif_state().1 == 1 => ("max", 0i64),
-                    Ok(Some(c)) => ("credit", c as i64),
-                    Ok(None) => ("none", 0),
-                    Err(s) if s == Signals::CREDIT => ("wait", 0),
-                    Err(_) => ("wait-for-other-signal", 0),
-                };
+                let (kind, v) = classify(&self.aa, r);
                 self.last_balance = r.ok().flatten();
                 self.obs(json!({"ev": "balance", "r": kind, "v": v}), w0)
             }
